@@ -146,6 +146,31 @@ def judge_build(res, tmod, traces_spec, k, stratum, wit, co=None):
         res.violation(f"stub-build-raises:{type(e).__name__}", f"{e!r:.300}", wit)
         return
     _judge_text(res, tmod, text, handed, k, stratum, wit)
+    cli_spec = [it for it in traces_spec if "..." not in json.dumps(it)]  # (homogeneous tuples have no stored form)
+    if wit.get("via_cli") and cli_spec:
+        # the same traces through the store and the `stub` command (decode, limit pass, rewriter choice, import of the module by name)
+        import tempfile
+
+        from monkeytype.db.sqlite import SQLiteStore
+        from vf.props.c01 import cli
+
+        traces2, handed2 = _traces_of(tmod, cli_spec)
+        fd, db = tempfile.mkstemp(suffix=".sqlite3")
+        os.close(fd)
+        try:
+            st = SQLiteStore.make_store(db)
+            st.add(traces2)
+            st.conn.close()
+            os.environ["MT_DB_PATH"] = db
+            rc, text2, err = cli(["-c", f"vf.mon.cfg:K{k}_NoOpRewriter", "stub", tmod.__name__])
+            res.count("builds_through_store_and_cli")
+            if rc != 0:
+                res.violation("stub-command-fails", f"rc={rc} {err[-300:]}", wit)
+            else:
+                _judge_text(res, tmod, text2, handed2, k, stratum, dict(wit, route="store+cli"))
+        finally:
+            os.environ.pop("MT_DB_PATH", None)
+            os.remove(db)
 
 
 _ANN_COUNT = [0]
@@ -385,7 +410,8 @@ def work(p):
             spec_b = [x for x in spec_b if not any("Own" in str(v) or "OInner" in str(v) for v in list(x[1].values()) + [x[2], x[3]])]
             if spec_b:
                 co = (tmod_b, spec_b)
-        judge_build(res, tmod, spec, k, stratum, {"spec": spec, "k": k, "stratum": stratum, "co_spec": co[1] if co else None}, co=co)
+        judge_build(res, tmod, spec, k, stratum, {"spec": spec, "k": k, "stratum": stratum, "co_spec": co[1] if co else None,
+                                                     "via_cli": co is None and rng.random() < 0.12}, co=co)
     for pin in p.get("pinned", ()):
         judge_build(res, tmod, pin["spec"], pin["k"], pin.get("stratum", "main"), {"pinned": pin.get("name")},
                     co=(tmod_b, [tuple(x) for x in pin["co"]]) if pin.get("co") else None)
@@ -420,6 +446,7 @@ def run(ck):
     ck.need("two_module_builds", 100)
     ck.need("source_annotations_handed_to_renderer", 300)
     ck.need("none_default_positions_judged", 300)
+    ck.need("builds_through_store_and_cli", 200)
     ck.need("typeddict_builds_naming_checked", 500)
     ck.need("module_pairs", 15, "module pairs never co-occurring in one stub")
     ck.need("container_with_typeddict", 5, "container kind x contains-TypedDict cell never rendered")
